@@ -46,9 +46,8 @@ Definition arity_can_accept (a : arity) (n : nat) : bool :=
   | ABetween lo hi => Nat.leb lo n && Nat.leb n hi
   | AAtLeast lo => Nat.leb lo n
   end.
-(* one past the position of the last Required parameter (repo fix: get_arity used to count the
-   required parameters, which let `(a?, b) => ..` be called with one argument and index past
-   the argument vector) *)
+(* follows repo fix dbc5881: `min` is one past the position of the LAST Required parameter
+   (args.iter().rposition(is_required).map_or(0, |i| i + 1)), not the count of required parameters *)
 Fixpoint min_args (args : list lamarg) (i acc : nat) : nat :=
   match args with
   | [] => acc
